@@ -344,6 +344,22 @@ fn bytes_eq(a: &str, b: &str) -> bool {
     true
 }
 
+fn one_byte_diff(a: &str, b: &str) -> bool {
+    let (a, b) = (a.as_bytes(), b.as_bytes());
+    if a.len() != b.len() {
+        return false;
+    }
+    let mut n = 0;
+    let mut i = 0;
+    while i < a.len() {
+        if a[i] != b[i] {
+            n += 1;
+        }
+        i += 1;
+    }
+    n == 1
+}
+
 /// badfilter identity: z$badfilter cancels y iff get_id_without_badfilter(z) == get_id(y).
 ///  (<=) same pattern + same options => ids equal (cancellation happens)            [P]
 ///  (=>) ids equal and masks equal modulo the badfilter bit => all fields equal     [K: the id is a
@@ -401,7 +417,27 @@ fn id_kernel<const N: usize>(with_mask_check: bool) {
         assert!(ids_eq, "P:id.same_rule_is_cancelled");
     }
     if ids_eq {
-        assert!(same, "K:badfilter-id-collision:id.equal_ids_imply_same_rule");
+        // Every component is fed into the id: two rules that differ in exactly one component, by one byte of a
+        // string of the same length or by the value of a domain hash that both carry, have different ids (the
+        // stream h -> h*33 ^ x is injective in a single x). Any other collision is the recorded weakness of the id
+        // (no delimiters, djb2-style hash).
+        let f_same = bytes_eq(fy, fz);
+        let h_same = has_hy == has_hz && (!has_hy || bytes_eq(hy, hz));
+        let d_same = has_dy == has_dz && (!has_dy || dy == dz);
+        let n_same = has_ny == has_nz && (!has_ny || ny == nz);
+        let f_one = one_byte_diff(fy, fz);
+        let h_one = has_hy && has_hz && one_byte_diff(hy, hz);
+        let d_one = has_dy && has_dz && dy != dz;
+        let n_one = has_ny && has_nz && ny != nz;
+        let single = (f_one && h_same && d_same && n_same)
+            || (f_same && h_one && d_same && n_same)
+            || (f_same && h_same && d_one && n_same)
+            || (f_same && h_same && d_same && n_one);
+        if single {
+            assert!(same, "P:id.every_component_is_part_of_the_id");
+        } else {
+            assert!(same, "K:badfilter-id-collision:id.equal_ids_imply_same_rule");
+        }
     }
     if with_mask_check {
         // the id ignores nothing that matching depends on: the mask is part of it
